@@ -68,8 +68,11 @@ def authentic(ev):
             return False, "id not lowercase 64-hex"
         if not is_hex64(ev["pubkey"]):
             return False, "pubkey not lowercase 64-hex"
-        if not (_is_int(ev["created_at"]) and _is_int(ev["kind"])):
-            return False, "created_at/kind not integers"
+        # (the statement asks for hash and signature, not for NIP-01 number shapes: a validly
+        #  signed event with a fractional created_at is authentic; strings/bools are not numbers)
+        for f in ("created_at", "kind"):
+            if isinstance(ev[f], bool) or not isinstance(ev[f], (int, float)):
+                return False, "created_at/kind not numbers"
         if not isinstance(ev["content"], str) or not isinstance(ev["tags"], list):
             return False, "content/tags type"
         try:
